@@ -44,6 +44,7 @@ def check(run, prog, tier):
     rule_E(run, prog)
     run.rule("C10-G", "the electronic dipole of an element is that of the two levels between which the molecule changes", minimum=1)
     rule_G(run, prog)
+    rule_G2(run, prog)
     run.rule("C10-H", "the electronic level that selects a molecule's sub-modes is read at the molecule's position in the "
                       "aggregate", minimum=1)
     rule_H(run, prog)
@@ -611,6 +612,58 @@ def rule_G(run, prog):
                    message="transition_dipole takes %s for every pair of states: the levels are not read from the electronic "
                            "signatures of the two states at the molecule that changes, so for a molecule with more than two levels "
                            "the 1->2 and 0->2 elements carry the 0->1 dipole" % norm(c), loc=f.loc(c), sample={"call": norm(c)})
+
+
+def rule_G2(run, prog):
+    """The same clause, decided by finite evaluation of transition_dipole() together with _get_exindx() (qv/feval.py) over
+    all pairs of electronic signatures of two and three molecules with up to three levels each, bands 0-2: whenever the
+    two states differ on exactly one molecule k - by one level or by two (the direct 0->2 transition of a three-level
+    molecule) - the element is d_k[lower -> upper] times the overlap factor; it is zero when they differ on no molecule
+    or on more than one.  A selection rule on the band difference that lets only neighbouring bands through silently
+    zeroes every 0->2 element."""
+    from .. import feval
+    from ..feval import Stub, Sym
+    from .c03 import _signatures
+    rid = "C10-G"
+    AB_ = "quantarhei.builders.aggregate_base.AggregateBase."
+    td = prog.func(AB_ + "transition_dipole")
+    ex = prog.func(AB_ + "_get_exindx")
+    fc = Sym(1.0, ("fc",))
+    for n in (2, 3):
+        states = [(band, sig) for band in (0, 1, 2) for sig in _signatures(n, 2, band)]
+        selfo = Stub("AggregateBase", nmono=n)
+
+        def _exindx(a, b):
+            return feval.Evaluator().call_function(ex.node, {"self": selfo, "state1": a, "state2": b})
+        selfo.methods = {"fc_factor": lambda a, b: fc, "_get_exindx": _exindx,
+                         "get_dipole": lambda k, lo, hi: Sym(1.0, ("d%d[%d->%d]" % (k, lo, hi),))}
+        objs = [Stub("VibronicState", elstate=Stub("ElectronicState", band=b, elsignature=sig, index=i), index=i)
+                for i, (b, sig) in enumerate(states)]
+        bad, npairs = [], 0
+        for i, (b1, a) in enumerate(states):
+            for j, (b2, b) in enumerate(states):
+                npairs += 1
+                try:
+                    got = feval.Evaluator().call_function(td.node, {"self": selfo, "state1": objs[i], "state2": objs[j]})
+                except feval.Unsupported as e:
+                    raise AnalysisError("transition_dipole(): construct outside the finite evaluator's vocabulary: %s" % e)
+                except feval.Raised as e:
+                    got = "raise %s" % e
+                diff = [k for k in range(n) if a[k] != b[k]]
+                if len(diff) == 1:
+                    k = diff[0]
+                    exp = Sym(1.0, ("d%d[%d->%d]" % (k, min(a[k], b[k]), max(a[k], b[k])),)) * fc
+                else:
+                    exp = Sym(0.0)
+                if isinstance(got, (int, float)):
+                    got = Sym(got)
+                if not isinstance(got, Sym) or not got.same(exp):
+                    bad.append((a, b, repr(got), repr(exp)))
+        run.obligation(rid, "AggregateBase.transition_dipole", not bad, key="finite-three-levels:N=%d" % n,
+                       message="transition_dipole() deviates from 'dipole of the one molecule that changes its level (by one or two "
+                               "levels) times the overlaps, zero otherwise' on %d of %d pairs of signatures with up to three levels; "
+                               "first: %s -> %s gives %s, expected %s" % ((len(bad), npairs) + (bad[0] if bad else ("", "", "", ""))),
+                       loc=td.loc(), sample={"molecules": n, "states": len(states), "pairs": npairs})
 
 
 def rule_H(run, prog):
